@@ -82,6 +82,9 @@ class FnTranslator:
         self.cuda_kernel = cuda_kernel
         self.out_arrays = out_arrays or []
         self.tmp = 0
+        self.prelude: List[str] = []
+        self.uses_fuel = False
+        self.stop_after_while: Optional[List[str]] = None
 
     # ---------- expressions ----------
     def expr(self, e: ast.AST, env: Env) -> Val:
@@ -97,6 +100,13 @@ class FnTranslator:
             if e.id not in env.kinds:
                 raise Unsupported(f"line {e.lineno}: unknown variable {e.id}")
             return Val(e.id, env.kinds[e.id])
+        if isinstance(e, ast.UnaryOp) and isinstance(e.op, ast.Not):
+            v = self.expr(e.operand, env)
+            if v.kind != "B":
+                raise Unsupported("not on non-bool")
+            return Val(f"(!{v.code})", "B")
+        if isinstance(e, ast.List) and not e.elts:
+            return Val("[]", "EMPTYLIST")
         if isinstance(e, ast.UnaryOp) and isinstance(e.op, ast.USub):
             v = self.expr(e.operand, env)
             if v.kind == "R":
@@ -124,6 +134,17 @@ class FnTranslator:
             vals = [self.expr(x, env) for x in e.elts]
             return Val("(" + ", ".join(v.code for v in vals) + ")", "T:" + ",".join(v.kind for v in vals))
         raise Unsupported(f"line {getattr(e, 'lineno', '?')}: expression {type(e).__name__}")
+
+    LT_ALL = {"R": "α", "N": "Nat", "Z": "Int", "B": "Bool", "LR": "List α", "LZ": "List Int", "A": "Arr α", "A2": "Arr2 α", "IA": "Arr Nat"}
+
+    def coerce(self, v: Val, kind: str, lineno: int = 0) -> Val:
+        if v.kind == kind:
+            return v
+        if kind == "R" and v.kind in ("N", "Z"):
+            return self.to_real(v)
+        if kind == "Z" and v.kind == "N":
+            return Val(f"(({v.code} : Nat) : Int)", "Z")
+        raise Unsupported(f"line {lineno}: cannot use a value of kind {v.kind} where {kind} is declared")
 
     def to_real(self, v: Val) -> Val:
         if v.kind == "R":
@@ -307,6 +328,38 @@ class FnTranslator:
         s, rest = stmts[0], stmts[1:]
         if isinstance(s, ast.Expr) and isinstance(s.value, ast.Constant) and isinstance(s.value.value, str):
             return self.block(rest, env, ind, final)  # docstring
+        if isinstance(s, ast.Pass):
+            return self.block(rest, env, ind, final)
+        if isinstance(s, ast.FunctionDef):
+            sub = FnTranslator(s, {a.arg: "R" for a in s.args.args}, self.known, f"{self.lean_name}__{s.name}")
+            s.__dict__["_file"] = self.fn.__dict__.get("_file", "")
+            text, info = sub.translate()
+            self.prelude.append(text)
+            self.known = dict(self.known)
+            self.known[s.name] = info
+            return self.block(rest, env, ind, final)
+        if isinstance(s, ast.Assign) and "_require_args(" in ast.unparse(s.value):
+            return self.block(rest, env, ind, final)          # parameters come from the signature table
+        if isinstance(s, ast.Assign) and len(s.targets) == 1 and isinstance(s.targets[0], ast.Tuple) and isinstance(s.value, ast.Tuple):
+            tg, vs = s.targets[0].elts, s.value.elts
+            if len(tg) != len(vs) or not all(isinstance(t, ast.Name) for t in tg):
+                raise Unsupported(f"line {s.lineno}: tuple assignment shape")
+            names = {t.id for t in tg}
+            for v in vs:
+                for n in ast.walk(v):
+                    if isinstance(n, ast.Name) and n.id in names:
+                        raise Unsupported(f"line {s.lineno}: simultaneous assignment reading its own targets")
+            seq = [ast.Assign(targets=[t], value=v, lineno=s.lineno) for t, v in zip(tg, vs)]
+            return self.block(seq + rest, env, ind, final)
+        if (isinstance(s, ast.Expr) and isinstance(s.value, ast.Call) and isinstance(s.value.func, ast.Attribute)
+                and s.value.func.attr == "append" and isinstance(s.value.func.value, ast.Name) and len(s.value.args) == 1):
+            lst = s.value.func.value.id
+            if env.kinds.get(lst) not in ("LR", "LZ"):
+                raise Unsupported(f"line {s.lineno}: append to {lst} which is not a declared list")
+            v = self.coerce(self.expr(s.value.args[0], env), "R" if env.kinds[lst] == "LR" else "Z", s.lineno)
+            return f"{ind}let {lst} : {self.LT_ALL[env.kinds[lst]]} := {lst} ++ [{v.code}]\n" + self.block(rest, env, ind, final)
+        if isinstance(s, ast.While):
+            return self.while_loop(s, rest, env, ind, final)
         if isinstance(s, ast.Return):
             if rest:
                 raise Unsupported("code after return")
@@ -335,9 +388,18 @@ class FnTranslator:
             v = self.expr(s.value, env)
             if v.kind == "SHAPE":
                 raise Unsupported("bare shape")
+            declared = self.sig.get(name) if name not in [a.arg for a in self.fn.args.args] else None
+            if v.kind == "EMPTYLIST":
+                if declared not in ("LR", "LZ"):
+                    raise Unsupported(f"line {s.lineno}: empty list {name} without a declared element kind")
+                v = Val("[]", declared)
+            elif declared is not None:
+                v = self.coerce(v, declared, s.lineno)
+            elif name in env.kinds and env.kinds[name] != v.kind:
+                v = self.coerce(v, env.kinds[name], s.lineno)
             env = env.copy()
             env.kinds[name] = v.kind
-            ty = {"R": " : α", "N": " : Nat", "Z": " : Int", "B": " : Bool"}.get(v.kind, "")
+            ty = {"R": " : α", "N": " : Nat", "Z": " : Int", "B": " : Bool", "LR": " : List α", "LZ": " : List Int"}.get(v.kind, "")
             return f"{ind}let {name}{ty} := {v.code}\n" + self.block(rest, env, ind, final)
         if isinstance(s, ast.AugAssign) and isinstance(s.target, ast.Name):
             fake = ast.Assign(targets=[s.target], value=ast.BinOp(left=ast.Name(id=s.target.id, ctx=ast.Load(), lineno=s.lineno),
@@ -348,6 +410,44 @@ class FnTranslator:
         if isinstance(s, ast.If):
             return self.if_stmt(s, rest, env, ind, final)
         raise Unsupported(f"line {s.lineno}: statement {type(s).__name__}")
+
+    def while_loop(self, s: ast.While, rest, env: Env, ind: str, final) -> str:
+        """`while cond: body` -> whileFuel fuel cond body state, state = variables assigned in the body that exist before it"""
+        if s.orelse:
+            raise Unsupported(f"line {s.lineno}: while/else")
+        assigned = self.assigned_names(s.body)
+        for st in ast.walk(ast.Module(body=s.body, type_ignores=[])):
+            if (isinstance(st, ast.Call) and isinstance(st.func, ast.Attribute) and st.func.attr == "append"
+                    and isinstance(st.func.value, ast.Name) and st.func.value.id not in assigned):
+                assigned.append(st.func.value.id)
+        carried = sorted(n for n in assigned if n in env.kinds)
+        if not carried:
+            raise Unsupported(f"line {s.lineno}: while loop with no effect")
+        self.uses_fuel = True
+        self.tmp += 1
+        st = f"ws{self.tmp}"
+        tys = " × ".join(self.LT_ALL[env.kinds[n]] for n in carried)
+        inner = env.copy()
+
+        def fin(e2: Env) -> str:
+            for n in carried:
+                if e2.kinds[n] != env.kinds[n]:
+                    raise Unsupported(f"line {s.lineno}: loop variable {n} changes kind ({env.kinds[n]} -> {e2.kinds[n]})")
+            return "(" + ", ".join(carried) + ")" if len(carried) > 1 else carried[0]
+        cond = self.expr(s.test, inner)
+        if cond.kind != "B":
+            raise Unsupported("while condition kind")
+        body_code = self.block(s.body, inner, ind + "    ", fin)
+        init = "(" + ", ".join(carried) + ")" if len(carried) > 1 else carried[0]
+        out = f"{ind}let {st} : {tys} := (whileFuel fuel\n"
+        out += f"{ind}  (fun ({st} : {tys}) =>\n" + self.unpack(st, carried, ind + "    ") + f"{ind}    {cond.code})\n"
+        out += f"{ind}  (fun ({st} : {tys}) =>\n" + self.unpack(st, carried, ind + "    ") + body_code + f")\n{ind}  {init}).1\n"
+        out += self.unpack(st, carried, ind)
+        if self.stop_after_while is not None:
+            vals = [self.expr(ast.Name(id=n, ctx=ast.Load(), lineno=s.lineno), env) for n in self.stop_after_while]
+            self.ret_kind = "T:" + ",".join(v.kind for v in vals)
+            return out + ind + "(" + ", ".join(v.code for v in vals) + ")"
+        return out + self.block(rest, env, ind, final)
 
     def launch(self, call: ast.Call, rest, env: Env, ind: str, final) -> str:
         """kernel[blocks, THREADS_PER_BLOCK](args…): one thread per j < K, each writing index j of the output arrays"""
@@ -543,10 +643,12 @@ class FnTranslator:
     def translate(self) -> Tuple[str, "FnInfo"]:
         fn = self.fn
         params = [a.arg for a in fn.args.args]
+        if fn.args.kwarg is not None and not params:
+            params = list(getattr(self, "param_order", []))
         env = Env()
         decl = []
         pk = []
-        LT = {"R": "α", "N": "Nat", "Z": "Int", "A": "Arr α", "A2": "Arr2 α", "IA": "Arr Nat", "B": "Bool"}
+        LT = self.LT_ALL
         body = list(fn.body)
         if self.cuda_kernel:
             # j = cuda.grid(1); if j < starts.shape[0]: <body with stores at [j]>
@@ -595,11 +697,13 @@ class FnTranslator:
             raise Unsupported(f"{fn.name}: no return")
         rk = self.ret_kind
         if rk.startswith("T:"):
-            rty = " × ".join(LT[k] for k in rk[2:].split(","))
+            rty = " × ".join(("(" + LT[k] + ")" if " " in LT[k] else LT[k]) for k in rk[2:].split(","))
         else:
             rty = LT[rk]
         src = f"/-- {os.path.basename(self.fn.__dict__.get('_file', ''))}:{fn.lineno}-{fn.end_lineno} `{fn.name}` -/\n"
-        text = src + f"def {self.lean_name} " + " ".join(decl) + f" : {rty} :=\n" + code + "\n"
+        if self.uses_fuel:
+            decl.append("(fuel : Nat)")
+        text = "".join(t + "\n" for t in self.prelude) + src + f"def {self.lean_name} " + " ".join(decl) + f" : {rty} :=\n" + code + "\n"
         return text, FnInfo(self.lean_name, pk, rk)
 
 
@@ -707,6 +811,39 @@ def gen_cuda(known: Dict[str, FnInfo], repo: str = REPO) -> Tuple[str, Dict[str,
     return text, known, errs
 
 
+SCHED_PARAMS = ["N", "fs", "olap", "bmin", "Lmin", "Jdes", "Kdes"]
+SCHED_BASE = {"N": "Z", "fs": "R", "olap": "R", "bmin": "R", "Lmin": "Z", "Jdes": "Z", "Kdes": "Z"}
+SCHED_SIGS = {
+    "ltf_plan": dict(SCHED_BASE, f_arr="LR", fres_arr="LR", b_arr="LR", L_arr="LZ", K_arr="LZ", O_arr="LR", D_arr="LZ", navg_arr="LZ"),
+    "new_ltf_plan": dict(SCHED_BASE, f="LR", r="LR", b="LR", L="LZ", K="LZ", alpha="R", j="Z", k_stage2="Z", dftlen_crossover="Z"),
+}
+SCHED_RETURNS = {"ltf_plan": ["f_arr", "fres_arr", "b_arr", "L_arr", "K_arr"], "new_ltf_plan": ["f", "r", "b", "L", "K"]}
+
+
+def gen_sched(repo: str = REPO) -> Tuple[str, List[str]]:
+    """the main `while fi < fmax` walk of ltf_plan and new_ltf_plan (statements up to and including the loop),
+    returning the five per-bin lists (f, r, b, L, K); the start positions / overlaps are hand-modelled."""
+    path = os.path.join(repo, "speckit/schedulers.py")
+    fns = parse_functions(path)
+    out = HEADER.format(src="speckit/schedulers.py", sha=sha_of(path))
+    errors: List[str] = []
+    for name in ("ltf_plan", "new_ltf_plan"):
+        try:
+            if name not in fns:
+                raise Unsupported("function not found")
+            tr = FnTranslator(fns[name], SCHED_SIGS[name], {}, name + "_walk")
+            tr.param_order = SCHED_PARAMS
+            tr.stop_after_while = SCHED_RETURNS[name]
+            text, _ = tr.translate()
+            out += text + "\n"
+        except Unsupported as ex:
+            errors.append(f"{name}: {ex}")
+            msg = str(ex).replace("-/", "- /")
+            out += f"/- UNSUPPORTED {name}: {msg} -/\ndef {name}_UNSUPPORTED : Nat := translation_failed_{name}\n\n"
+    out += "end Gen\n"
+    return out, errors
+
+
 UTILS_SIGS = {"kaiser_alpha": {"psll": "R"}, "kaiser_rov": {"alpha": "R"}, "round_half_up": {"val": "R"}}
 
 
@@ -742,6 +879,9 @@ def regenerate(repo: str = REPO) -> Dict[str, List[str]]:
     text, _k, errs = gen_utils(repo)
     write_if_changed(os.path.join(GEN_DIR, "Utils.lean"), text)
     report["Utils"] = errs
+    text, errs = gen_sched(repo)
+    write_if_changed(os.path.join(GEN_DIR, "Sched.lean"), text)
+    report["Sched"] = errs
     text, errs = gen_ctor(repo)
     write_if_changed(os.path.join(GEN_DIR, "Ctor.lean"), text)
     report["Ctor"] = errs
